@@ -15,6 +15,10 @@ import (
 
 type c04Case struct {
 	shellCfg
+	// the last prompt line changes width during the call: "len" = the application's prompt function
+	// appends 0-2 marks depending on the buffer length; "mode" = show-mode-in-prompt with mode
+	// strings of different widths (the library re-renders that line at every redisplay)
+	Dyn  string      `json:"dyn,omitempty"`
 	Pre  int         `json:"pre"` // newlines printed before the prompt (frames near the bottom: scrolling)
 	Plan []sess.Step `json:"plan"`
 	// the application colours the buffer (SyntaxHighlighter): colours only, the cells are the same
@@ -143,6 +147,12 @@ func c04Gen(r *rand.Rand, tier string, idx int) any {
 		c.Pre = r.Intn(c.H + 3)
 	}
 	c.Hilite = r.Intn(5) == 0
+	if r.Intn(5) == 0 && widthOf(lastLine(visibleLines(c.Prompt)[len(visibleLines(c.Prompt))-1])) <= c.W-10 {
+		c.Dyn = pick(r, []string{"len", "mode"})
+		if c.Dyn == "mode" {
+			c.Inputrc += "set show-mode-in-prompt on\nset vi-ins-mode-string (insert)\nset vi-cmd-mode-string :\nset emacs-mode-string @@\n"
+		}
+	}
 	// plan: recall an entry, then edit / move so that consecutive frames grow and shrink
 	var plan []sess.Step
 	add := func(w, tag string) { plan = append(plan, sess.Step{W: w, Tag: tag}) }
@@ -153,6 +163,15 @@ func c04Gen(r *rand.Rand, tier string, idx int) any {
 	}
 	for i := 0; i < n; i++ {
 		if vi {
+			if c.Dyn != "" && r.Intn(5) == 0 {
+				// through insert mode and back (the mode string in the prompt changes twice)
+				add(pick(r, []string{"i", "a", "A", "I"}), "insert-mode")
+				for _, ch := range pick(r, []string{"", "q", "zz"}) {
+					add(string(ch), "type")
+				}
+				add("\x1b", "esc")
+				continue
+			}
 			switch r.Intn(12) {
 			case 0, 1, 2:
 				add("k", "hist-up")
@@ -384,7 +403,13 @@ func c04Run(env *fw.Env, raw json.RawMessage) fw.Outcome {
 	}
 	cfg.Setup = func(s *sess.Session) {
 		p := c.Prompt
-		s.Sh.Prompt.Primary(func() string { return p })
+		sh0 := s.Sh
+		s.Sh.Prompt.Primary(func() string {
+			if c.Dyn == "len" {
+				return p + strings.Repeat("+", sh0.Line().Len()%3)
+			}
+			return p
+		})
 		if c.Pre > 0 {
 			fmt.Fprint(os.Stdout, strings.Repeat("\r\n", c.Pre))
 		}
@@ -416,7 +441,8 @@ func c04Run(env *fw.Env, raw json.RawMessage) fw.Outcome {
 	defer s.Close()
 	res := s.Call(c.Plan, retExit)
 	promptLines := visibleLines(c.Prompt)
-	ctx := fmt.Sprintf("W=%d H=%d mode=%s prompt=%q pre=%d", c.W, c.H, c.Mode, c.Prompt, c.Pre)
+	basePrompt := append([]string{}, promptLines...)
+	ctx := fmt.Sprintf("W=%d H=%d mode=%s prompt=%q dynamic=%q pre=%d", c.W, c.H, c.Mode, c.Prompt, c.Dyn, c.Pre)
 	if !stdFailures(&o, res, ctx) {
 		o.O.Sample = map[string]any{"ctx": ctx}
 		return o.O
@@ -432,6 +458,22 @@ func c04Run(env *fw.Env, raw json.RawMessage) fw.Outcome {
 		}
 		lastBuf := prevBuf
 		prevBuf = sn.Line
+		if c.Dyn != "" {
+			// the prompt shown at this wait
+			promptLines = append([]string{}, basePrompt...)
+			last := &promptLines[len(promptLines)-1]
+			switch {
+			case c.Dyn == "len":
+				*last += strings.Repeat("+", len([]rune(sn.Line))%3)
+			case sn.Main == "vi-command":
+				*last = ":" + *last
+			case sn.Main == "vi-insert":
+				*last = "(insert)" + *last
+			default:
+				*last = "@@" + *last
+			}
+			o.Add("frames_with_a_prompt_that_changes_width_during_the_call", 1)
+		}
 		if len(o.O.Findings) > 0 {
 			// the screen state of this call is already wrong: later frames would only repeat it
 			o.Add("frames_not_judged_after_a_wrong_frame", 1)
